@@ -5,6 +5,7 @@ package main
 import (
 	"bytes"
 	"context"
+	"errors"
 	"os"
 	"regexp"
 	"runtime"
@@ -128,18 +129,18 @@ func quiesce(h *hlog, maxWait time.Duration, pendingTimers func() bool) bool {
 // ctxSet manages the cancellable contexts of a scenario.
 type ctxSet struct {
 	ctxs    map[int]context.Context
-	cancels map[int]context.CancelFunc
+	cancels map[int]func()
 }
 
 func newCtxSet() *ctxSet {
-	return &ctxSet{ctxs: map[int]context.Context{}, cancels: map[int]context.CancelFunc{}}
+	return &ctxSet{ctxs: map[int]context.Context{}, cancels: map[int]func(){}}
 }
 
 func (s *ctxSet) get(id int) context.Context {
 	if c, ok := s.ctxs[id]; ok {
 		return c
 	}
-	c, cancel := context.WithCancel(context.Background())
+	c, cancel := zooContext(id)
 	s.ctxs[id] = c
 	s.cancels[id] = cancel
 	return c
@@ -155,3 +156,96 @@ func (s *ctxSet) cancelAll() {
 		c()
 	}
 }
+
+// ---- context zoo. A scenario's contexts are not all context.WithCancel contexts: depending on cfg "ctxseed" a context
+// is cancelled with a cause (ctx.Err() stays context.Canceled, context.Cause(ctx) is errCtxCause - code must
+// report ctx.Err()), or is a context type of our own that ends with context.DeadlineExceeded (code must not assume
+// that an ended context reports context.Canceled). Without "ctxseed" every context is a plain WithCancel context.
+
+var errCtxCause = errors.New("verif: the cause the context was cancelled with")
+
+var ctxZooSeed = -1
+
+func setCtxZoo(cfg map[string]any) {
+	ctxZooSeed = -1
+	if v, ok := cfg["ctxseed"]; ok {
+		if f, ok := v.(float64); ok {
+			ctxZooSeed = int(f)
+		}
+	}
+}
+
+type manualCtx struct {
+	done  chan struct{}
+	mu    sync.Mutex
+	err   error
+	after map[int]func()
+	next  int
+}
+
+func (m *manualCtx) Deadline() (time.Time, bool) { return time.Time{}, false }
+func (m *manualCtx) Done() <-chan struct{}       { return m.done }
+func (m *manualCtx) Value(any) any               { return nil }
+func (m *manualCtx) Err() error {
+	m.mu.Lock()
+	defer m.mu.Unlock()
+	return m.err
+}
+
+// AfterFunc is the hook package context uses to propagate the end of a parent that is not one of its own types:
+// the registered functions (cancellation of derived contexts) run inside expire, so that - as with the standard
+// context types - every derived context has ended when the call that ended the parent returns.
+func (m *manualCtx) AfterFunc(f func()) (stop func() bool) {
+	m.mu.Lock()
+	defer m.mu.Unlock()
+	if m.after == nil {
+		m.after = map[int]func(){}
+	}
+	id := m.next
+	m.next++
+	m.after[id] = f
+	return func() bool {
+		m.mu.Lock()
+		defer m.mu.Unlock()
+		_, ok := m.after[id]
+		delete(m.after, id)
+		return ok
+	}
+}
+
+func (m *manualCtx) expire() {
+	m.mu.Lock()
+	if m.err != nil {
+		m.mu.Unlock()
+		return
+	}
+	m.err = context.DeadlineExceeded
+	close(m.done)
+	fs := m.after
+	m.after = nil
+	m.mu.Unlock()
+	for _, f := range fs {
+		f()
+	}
+}
+
+// zooContext returns the id-th context of the running scenario and the function that ends it.
+func zooContext(id int) (context.Context, func()) {
+	kind := 0
+	if ctxZooSeed >= 0 {
+		kind = (ctxZooSeed/7 + id*(1+ctxZooSeed%3)) % 3
+	}
+	switch kind {
+	case 1:
+		c, cancel := context.WithCancelCause(context.Background())
+		return c, func() { cancel(errCtxCause) }
+	case 2:
+		m := &manualCtx{done: make(chan struct{})}
+		return m, m.expire
+	}
+	c, cancel := context.WithCancel(context.Background())
+	return c, cancel
+}
+
+// isCtxErr: err is the error of an ended context (identity, not errors.Is: scripted errors may wrap one).
+func isCtxErr(err error) bool { return err == context.Canceled || err == context.DeadlineExceeded }
